@@ -27,10 +27,6 @@ import run as st        # noqa: E402
 SEEDED = os.path.join(VERIF, 'seeded')
 
 
-FALLBACK_BASE = 'd877b03'     # tree the round 2-4 / refactoring patches
-                              # were written against
-
-
 def _apply(root, patch):
     proc = subprocess.run(['patch', '-p1', '--no-backup-if-mismatch'],
                           cwd=root, input=open(patch).read(),
@@ -47,22 +43,58 @@ def base_copy(commit):
     return root
 
 
+PORT_BASES = ['aad6aa0', 'd877b03']   # trees the stored patches were written
+                                      # against (rounds 4-5 / rounds 2-3)
+
+
+def _git(root, *args, **kw):
+    return subprocess.run(['git', '-C', root, '-c', 'user.name=verif', '-c',
+                           'user.email=verif@localhost', *args],
+                          capture_output=True, text=True, **kw)
+
+
+def ported_copy(patch):
+    """The patch no longer applies textually to the current tree (a later
+    repair touched the same lines): commit it on the tree it was written
+    against and let git replay that one commit on the current HEAD (3-way
+    merge). Conflicts mean the change is superseded by a repair."""
+    import tempfile
+    head = subprocess.run(['git', '-C', st.REPO, 'rev-parse', 'HEAD'],
+                          capture_output=True, text=True).stdout.strip()
+    why = ''
+    for base in PORT_BASES:
+        root = tempfile.mkdtemp(prefix='vf-selftest-')
+        subprocess.run(['git', 'clone', '-q', '-s', st.REPO, root],
+                       check=True)
+        _git(root, 'checkout', '-q', '-b', 'port', base)
+        ok, why = _apply(root, patch)
+        if ok:
+            _git(root, 'add', '-A')
+            _git(root, 'commit', '-q', '-m', 'stored change')
+            proc = _git(root, 'rebase', '--onto', head, base, 'port')
+            if proc.returncode == 0:
+                shutil.rmtree(os.path.join(root, '.git'), ignore_errors=True)
+                return root, True, f'(ported from {base} by git rebase) '
+            why = 'conflicts with a later repair: ' + (
+                proc.stdout + proc.stderr)[-200:]
+        shutil.rmtree(root, ignore_errors=True)
+    return None, False, why
+
+
 def patched_copy(patch):
     """Scratch copy of the CURRENT tree with the patch applied; when a later
     repair in /repo touched the same lines and the patch no longer applies,
-    fall back to the commit the patch was written against."""
+    it is ported with git (see ported_copy)."""
     root = st.make_copy()
     ok, why = _apply(root, patch)
     if ok:
         return root, True, ''
     shutil.rmtree(root, ignore_errors=True)
-    root = base_copy(FALLBACK_BASE)
-    ok, why2 = _apply(root, patch)
-    # the fallback tree predates the repair aad6aa0: the probe that found
-    # that defect would fire on it whatever the patch does
-    open(os.path.join(root, '.predates_aad6aa0'), 'w').close()
-    return root, ok, (f'(applied to {FALLBACK_BASE}, not to the current tree) '
-                      if ok else why + why2)
+    root, ok, why2 = ported_copy(patch)
+    if ok:
+        return root, True, why2
+    import tempfile
+    return tempfile.mkdtemp(prefix='vf-selftest-'), False, why + ' / ' + why2
 
 
 def run_demo(demo, root):
@@ -122,8 +154,16 @@ def evaluate(name, all_checks):
     root, applied, why = patched_copy(os.path.join(dest, 'patch.diff'))
     try:
         if not applied:
-            meta['checks'] = {'error': 'patch no longer applies: ' + why}
+            # superseded: a later repair of /repo rewrote the lines this
+            # change edits; the verdict obtained on the last tree it applied
+            # to is kept
+            meta['superseded'] = ('no longer applies to /repo HEAD (a later '
+                                  'repair rewrote the same lines); verdict '
+                                  'kept from the last tree it applied to')
+            with open(os.path.join(dest, 'meta.json'), 'w') as fout:
+                json.dump(meta, fout, indent=1)
             return meta
+        meta.pop('superseded', None)
         pid = meta['property']
         results = {}
         caught = None
@@ -166,17 +206,21 @@ def cmd_run(only, all_checks, jobs):
         for meta in pool.map(lambda n: evaluate(n, all_checks), names):
             rows.append(meta)
             print(f"{meta['name']:12s} {meta['property']} caught_by="
-                  f"{meta.get('caught_by')} {meta['checks']}", flush=True)
+                  f"{meta.get('caught_by')} "
+                  f"{'SUPERSEDED' if meta.get('superseded') else meta['checks']}",
+                  flush=True)
     if not only:
         with open(os.path.join(SEEDED, 'RESULTS.md'), 'w') as fout:
             fout.write('# Seeded breaking changes (from independent '
                        'sub-agents) vs. the checks\n\n| change | property | '
-                       'detected by | divergence kinds |\n|---|---|---|---|\n')
+                       'detected by | divergence kinds | applies to HEAD |\n'
+                       '|---|---|---|---|---|\n')
             for m in rows:
                 hit = m.get('caught_by')
                 kinds = m['checks'].get(hit, {}).get('kinds') if hit else ''
                 fout.write(f"| {m['name']} | {m['property']} | "
-                           f"{hit or 'MISSED'} | {kinds} |\n")
+                           f"{hit or 'MISSED'} | {kinds} | "
+                           f"{'no (superseded by a repair)' if m.get('superseded') else 'yes'} |\n")
     missed = [m['name'] for m in rows if not m.get('caught_by')]
     print(f'{len(rows)} seeded changes, {len(missed)} missed: {missed}')
 
